@@ -16,7 +16,8 @@ CLAIMED = {
     technique='contract-based deductive verification: Python-AST VC generation + z3/cvc5; bounded native contract execution as cross-check'),
   'C15': dict(
     category='other',
-    text='StripSpaces (maximal slice without leading/trailing white space) and HeritageAwareString.GetSlice '
+    text='IsWhole and RemoveComments proved modularly against an assumed contract of the scanner\'s yields; '
+         'StripSpaces (maximal slice without leading/trailing white space) and HeritageAwareString.GetSlice '
          '(span invariant heritage[start:stop] == text preserved under its weakest precondition) are proved '
          'for all strings from VCs on the current source; the scanner and the whole-parser layout invariance '
          'are bounded contracts, so the property as a whole is claimed below proof level.',
@@ -47,7 +48,8 @@ CLAIMED = {
     technique='contracts on real functions executed natively over exhaustive small domains (bounded stand-in)'),
   'C10': dict(
     category='other',
-    text='QL.StrLiteral is decided for all strings per dialect by the string-homomorphism decider (branch structure '
+    text='Annotations.BuildFlagValues proved (defaults < @ResetFlagValue < user flags, value by value; diagnostic exactly for an '
+         'undefined user flag). QL.StrLiteral is decided for all strings per dialect by the string-homomorphism decider (branch structure '
          'extracted from the current AST; per-character round trip through a table-driven lexer spec of each engine, '
          'all Unicode scalar values for the json branch): complete for its fragment. Function/Infix single-pass '
          'formatting, BuildFlagValues and UseFlagsAsParameters are contracts executed natively (bounded); the SQLite '
@@ -74,7 +76,8 @@ CLAIMED = {
     technique='contract-based deductive verification (Python-AST VCs, z3/cvc5) + exhaustive small-plan contract execution (bounded)'),
   'C17': dict(
     category='other',
-    text='TranslateTableAttachedToFile proved: one export statement per defined grounded predicate placed after the '
+    text='AttachedDatabases proved (user attachments unchanged; in-memory logica_test added only for SQLite programs that ground something and attached none). '
+         'TranslateTableAttachedToFile proved: one export statement per defined grounded predicate placed after the '
          'statements of the nested compilation, memoised second request emits nothing, table name is the @Ground name, '
          'every reader gets a dependency edge. Callees are assumed by contract (append-only statement list).',
     design_ref='DESIGN.md section 4, C17',
